@@ -300,6 +300,34 @@ def run_engine(amh, engine, tier, seed, outdir, extra=()):
 # --------------------------------------------------------------------------- evidence / verdict
 
 
+def explain_failure(f, run_dirs, explainers):
+    """Ask the model for its side of the story on one failing case (evaluated by coqc)."""
+    fn = explainers.get(f.get("group"))
+    if not fn or f.get("index") is None:
+        return None
+    for d in run_dirs:
+        for vf in glob.glob(os.path.join(d, "*.v")):
+            stem = os.path.basename(vf)[:-2]
+            jl = os.path.join(d, stem + ".jsonl")
+            if not os.path.exists(jl):
+                continue
+            hit = any(json.loads(l).get("case") == f.get("case") and json.loads(l).get("index") == f["index"]
+                      for l in open(jl) if l.strip())
+            if not hit:
+                continue
+            src = open(vf).read()
+            cut = src.find("Definition res_")
+            if cut < 0:
+                continue
+            ex = os.path.join(d, "explain.v")
+            with open(ex, "w") as o:
+                o.write(src[:cut])
+                o.write(f"\nEval vm_compute in option_map {fn} (nth_error {f['group']} {f['index']}).\n")
+            rc, out = sh(["timeout", "300", "coqc", "-Q", COQ, "AM", "-w", "-all", ex], cwd=d, timeout=400)
+            return out.strip()[-4000:] if rc == 0 else None
+    return None
+
+
 def load_known():
     p = os.path.join(VERIF, "known_findings.json")
     if os.path.exists(p):
@@ -520,7 +548,14 @@ def check(prop, spec, tier, seed, replay, t0):
         # report the smallest failing case
         new_failures.sort(key=lambda fk: len(json.dumps(fk[0].get("case"), default=str)))
         f = new_failures[0][0]
+        explainers = {}
+        for r in engine_results:
+            explainers.update(r["summary"].get("explain", {}))
+        run_dirs = [os.path.join(BUILD, "run", d) for d in os.listdir(os.path.join(BUILD, "run"))
+                    if d.startswith(prop + "-")]
+        model_side = explain_failure(f, run_dirs, explainers)
         payload = dict(property=prop, kind="correspondence", tier=tier, seed=seed, failure=f,
+                       model_says=model_side,
                        n_failures=len(new_failures),
                        proofs_ok=proofs_good, proof_error=err_txt,
                        how_to_replay=f"bin/check {prop} --tier {tier}  (VERIF_SEED={seed})")
